@@ -249,6 +249,8 @@ def check(case):
         cls.append("nt:float-misround")
     if any(u["vout"] != i for i, u in enumerate(utxos)):
         cls.append("nt:vout!=idx")
+    if len({u["txid"] for u in utxos}) < len(utxos):
+        cls.append("nt:outputs-of-same-tx")
     if flag != 1 and signed:
         cls.append("nt:flag!=ALL")
     if version != 1 or locktime != 0:
@@ -344,10 +346,18 @@ def cases(draw, signed=None):
         change = {"kind": draw(st.sampled_from(["p2pkh", "p2wpkh", "p2sh", "pubkey"])), "body": draw(st.binary(min_size=32, max_size=32)).hex(), "key": draw(st.integers(1, 2**32)), "comp": True}
     nu = draw(st.sampled_from([1, 1, 2, 2, 3, 4, 6]))
     utxos = []
+    share = draw(st.sampled_from(["distinct", "distinct", "same-tx", "mixed"]))
     for i in range(nu):
         sat = draw(st.one_of(st.sampled_from(MISROUND), st.integers(546, 10**9), st.integers(546, 21 * 10**14 // 8)))
-        vout = draw(st.sampled_from([i, 0, 1, 5]) | st.integers(0, 5))
-        utxos.append({"txid": hashlib.sha256(draw(st.binary(min_size=4, max_size=4)) + bytes([i])).hexdigest(), "vout": vout, "sat": sat})
+        txid = hashlib.sha256(draw(st.binary(min_size=4, max_size=4)) + bytes([i])).hexdigest()
+        if utxos and (share == "same-tx" or (share == "mixed" and draw(st.booleans()))):
+            txid = utxos[draw(st.integers(0, len(utxos) - 1))]["txid"]  # another output of an already listed transaction
+        used = {u["vout"] for u in utxos if u["txid"] == txid}
+        free = [v for v in range(0, 8) if v not in used]
+        vout = draw(st.sampled_from(free[:6]))
+        if i not in used and draw(st.integers(0, 2)) == 0:
+            vout = i
+        utxos.append({"txid": txid, "vout": vout, "sat": sat})
     frac = draw(st.sampled_from([1.0, 1.0, 0.5, 0.1, 1 / 3, 0.9999]) | st.floats(min_value=0.01, max_value=1.0, allow_nan=False))
     is_signed = draw(st.booleans()) if signed is None else signed
     return {
@@ -368,7 +378,7 @@ def targets(tier):
     built = [f"built:{k}" for k in LEGACY + SEGWIT]
     return [
         Target("signed", check, strategy=lambda tier: cases(signed=True), budget={"quick": 640, "thorough": 10000},
-               required=built + ["nt:n_in>=2", "nt:vout!=idx", "nt:float-misround", "nt:flag!=ALL", "nt:non-default-version-locktime"]),
+               required=built + ["nt:n_in>=2", "nt:vout!=idx", "nt:float-misround", "nt:flag!=ALL", "nt:non-default-version-locktime", "nt:outputs-of-same-tx"]),
         Target("unsigned", check, strategy=lambda tier: cases(signed=False), budget={"quick": 1600, "thorough": 30000},
                required=["nt:n_in>=2", "nt:float-misround", "refused"]),
     ]
